@@ -67,6 +67,11 @@ def cases(tier, cfg, seed):
     pool += [c for c in c03.cases('quick', cfg, seed)][::5]
     rng.shuffle(pool)
     out += pool[:260 if tier == 'quick' else 1500]
+    # operand tensors WITHOUT tail padding (K*N*sizeof(T) a multiple of the storage alignment) around the masked / remainder
+    # kernels of matmul: an over-read past the last row of B cannot hide in padding here
+    for T, shp in (('double', [(5, 4, 22), (5, 4, 23), (6, 4, 22), (3, 4, 30), (5, 8, 11), (7, 4, 10)]), ('float', [(5, 8, 43), (5, 8, 42), (3, 8, 22), (6, 8, 13), (5, 16, 21)]),
+                   ('int', [(5, 8, 43), (3, 8, 22)])):
+        for (m, k, n) in shp: out.append(c01.MM(T, m, k, n, 'mm'))
     for T in (['double', 'float', 'int'] if tier == 'quick' else ALLT):
         for shape in ([(1,), (3,), (5,), (7,), (9,), (15,), (17,), (31,), (33,), (3, 5), (5, 7)] if tier == 'quick' else [(n,) for n in (1, 2, 3, 5, 7, 9, 11, 13, 15, 17, 31, 33, 63, 65)] + [(3, 5), (5, 7), (3, 3, 3), (7, 9)]):
             out += c20.map_ops(T, shape)
